@@ -36,6 +36,11 @@ func (pe *PolicyEngine) generateRepresentativePeers(selectors []k8s.SingleRuleSe
 			// if namespaceSelector of the rule was nil, then the namespace of the pod is same as the policy's namespace
 			// i.e. the namespace name of the policy should be assigned to the representative pod's Namespace (string field)
 			podNs = policyNs
+			// the policy's namespace may have no Namespace object and no pods in the input resources: resolve it, so
+			// the representative pod's namespace can be found when computing its connections
+			if err = pe.resolveSingleMissingNamespace(podNs); err != nil {
+				return err
+			}
 		}
 		err = pe.addRepresentativePod(podNs, &selectors[i])
 		if err != nil {
